@@ -333,6 +333,7 @@ CHECKS["C03"] = {
     "assumptions": ["every request carries Connection: close so that the end of the framed response is observable"],
     "units": [
         {"name": "httpserver", "pkg": "pkg/object/httpserver", "test": "TestVerifC03", "inject": [LOOPBACK]},
+        {"name": "hostheader", "pkg": "pkg/filters/proxy", "test": "TestVerifC03host", "inject": [PROXYRIG], "workers": 2},
     ],
 }
 
